@@ -1,6 +1,7 @@
 """C18: viscous and wave drag estimates are well-behaved and discretisation-consistent.
-Not decided: positivity of the flat-plate friction blend and monotonic decrease with Reynolds number (transcendental
-inequalities in x / log(x)^2.58 that neither z3 nor cvc5 decides; stated as an explicit hypothesis where needed)."""
+The sign clauses (positivity, monotonic decrease with the Reynolds number, increase with thickness) are transcendental
+inequalities in x / log(x)^2.58 that neither z3 nor cvc5 decides; they are discharged by interval branch-and-bound over the
+admissible box (c18.viscous_signs).  Not decided: Reynolds monotonicity for laminar fractions strictly between 0.05 and 1."""
 import numpy as np
 from ..runner import job
 from .. import gsx, term as S
